@@ -72,7 +72,7 @@ struct End {
   bool resume_armed = false; uint64_t total_at_resume = 0; int armed_turn = 0;
   // lifecycle monitor
   uint64_t total_at_eof = 0;
-  bool connect_pending = false, skip_conn_order = false; int rw_since_connect = 0; int connect_mode = CM_NONE; bool connect_failed = false;
+  bool connect_pending = false, skip_conn_order = false, ever_cleared_e = false; int rw_since_connect = 0; int connect_mode = CM_NONE; bool connect_failed = false;
   uint64_t total_at_last_rcb = 0;
   int cbs_this_turn = 0;
 };
@@ -169,7 +169,7 @@ static void io_hook(const struct sim_io_rec *r, void *) {
 
 static int64_t wait_hook(const struct sim_wait_info *wi, void *) {
   W->passes++;
-  if (W->passes > 6000) { W->cap_hit = true; event_base_loopbreak(W->base); return 0; }
+  if (W->passes > 1500) { W->cap_hit = true; event_base_loopbreak(W->base); return 0; }
   if (wi->nready > 0) return 20;
   if (wi->timeout_us < 0) { event_base_loopbreak(W->base); return 0; }
   return wi->timeout_us;
@@ -232,7 +232,8 @@ static void app_read(End &e, size_t n, const char *where) {
   std::vector<uint8_t> &buf = bufs[nest]; if (buf.size() < 65536) buf.resize(65536);
   nest++;
   struct bufferevent *t = top(e); int d = 1 - e.id; size_t want = n, total = 0;
-  while (n && e.live) { size_t k = n < buf.size() ? n : buf.size(); size_t have = inlen(t); size_t pre = k < have ? k : have; if (!pre) break;
+  int iters = 0;   // with a tiny high watermark every read refills a few bytes: bound the work of one application read
+  while (n && e.live && iters++ < 48) { size_t k = n < buf.size() ? n : buf.size(); size_t have = inlen(t); size_t pre = k < have ? k : have; if (!pre) break;
     uint64_t base = e.consumed; e.consumed += pre;
     size_t got = bufferevent_read(t, buf.data(), k);
     CHECK(got == pre, K("read-short"), "%s: bufferevent_read(%zu) with %zu byte(s) buffered returned %zu", where, k, have, got);
@@ -440,6 +441,7 @@ static void on_event(struct bufferevent *bev, short what, void *arg) {
 static void set_cbs(End &e, bool r, bool w, bool ev) {
   TR("%*ssetcb %c read=%d write=%d event=%d", W->cb_depth * 4, "", 'A' + e.id, r, w, ev);
   bufferevent_setcb(top(e), r ? on_read : nullptr, w ? on_write : nullptr, ev ? on_event : nullptr, &e);
+  if (!ev) e.ever_cleared_e = true;
   e.cb_r = r; e.cb_w = w; e.cb_e = ev; e.w_owed = false; e.wlow_excuse = true; e.low_excuse = true; e.total_at_last_rcb = in_total(e);
 }
 
@@ -662,7 +664,7 @@ static int run_case(const uint8_t *data, size_t size, int prop) {
       case O_WM: { int which = s.below(4); short ev = which == 3 ? EV_WRITE : which == 2 ? (EV_READ | EV_WRITE) : EV_READ;
         size_t lo = draw_mark(s), hi = draw_mark(s); int rel = s.below(4); if (rel == 1) hi = lo; else if (rel == 2 && hi > lo) { size_t t = lo; lo = hi; hi = t; }
         do_setwatermark(e, ev, lo, hi, "op"); break; }
-      case O_UWM: if (e.nl > 1) { size_t lo = draw_mark(s), hi = draw_mark(s); TR("op: %c underlying setwatermark(W, %zu, %zu)", 'A' + e.id, lo, hi); bufferevent_setwatermark(e.L[e.nl - 2].bev, EV_WRITE, lo, hi); } break;
+      case O_UWM: if (e.nl > 1) { size_t lo = draw_mark(s), hi = draw_mark(s); if (hi && hi < 64) hi = 64;   /* a tiny mark under megabytes of output is legal but takes minutes */ TR("op: %c underlying setwatermark(W, %zu, %zu)", 'A' + e.id, lo, hi); bufferevent_setwatermark(e.L[e.nl - 2].bev, EV_WRITE, lo, hi); } break;
       case O_FLUSH: { short io = (short)(1 + s.below(3)); io = (short)(((io & 1) ? EV_READ : 0) | ((io & 2) ? EV_WRITE : 0)); int mode = s.below(3);
         if (e.nl > 2) io = EV_WRITE;   // code-derived corner: flush(EV_READ) on stacked filters strands data in the middle layer (one layer per call, no read callback)
         if (mode == BEV_FINISHED && w.kind == K_PAIR) { if (((io & EV_WRITE) && e.fin_w) || ((io & EV_READ) && e.fin_r) || peer(e).rd_done || peer(e).wr_done) mode = BEV_FLUSH; }
@@ -701,7 +703,7 @@ static int run_case(const uint8_t *data, size_t size, int prop) {
     if (!src.live || !dst.live || !src.clean_out || !dst.clean_in) continue;
     if (dst.rd_done && !(w.kind == K_SOCK && src.shut_wr)) continue;   // judged when the EOF was reported (C17/eof-before-data)
     CHECK(dst.consumed == src.written, K("bytes-not-delivered"), "after the history drained: %c wrote %llu byte(s), %c obtained %llu (no error, reset or free on this direction)", 'A' + i, (unsigned long long)src.written, 'A' + 1 - i, (unsigned long long)dst.consumed);
-    if (M17() && w.kind == K_SOCK && src.shut_wr) CHECK(dst.n_eof_r >= 1, "C17/eof-missing", "%c shut down writing in an orderly way, %c is reading, but saw %d EOF report(s)", 'A' + i, 'A' + 1 - i, dst.n_eof_r);
+    if (M17() && w.kind == K_SOCK && src.shut_wr && !dst.ever_cleared_e) CHECK(dst.n_eof_r >= 1, "C17/eof-missing", "%c shut down writing in an orderly way, %c is reading, but saw %d EOF report(s)", 'A' + i, 'A' + 1 - i, dst.n_eof_r);
   }
   (void)pre_settle_cap;
 
@@ -714,6 +716,7 @@ static int run_case(const uint8_t *data, size_t size, int prop) {
   if (w.listener >= 0) close(w.listener);
   int fds1 = count_open_fds();
   CHECK(fds0 == fds1, K("fd-leak"), "%d file descriptors open at the start of the case, %d at the end", fds0, fds1);
+  if (!w.cap_hit)   // (a loop cut short by the harness' pass cap leaves finalizers queued; not judged)
   CHECK(sim_mem_live_blocks == live0, K("leak"), "library allocations outstanding after teardown: %lld", (long long)(sim_mem_live_blocks - live0));
   { const char *er = sim_lockmon_error(); CHECK(er == nullptr, K("lock-misuse"), "teardown: %s", er); }
 
